@@ -342,7 +342,25 @@ def match(pat, t, extra_strip=()):  # noqa: F811  (extends the matcher above)
     return r
 
 
+class Mentions:
+    """pattern: any term that contains, somewhere inside (arguments, captures of a closure literal), a sub-term matching
+    each of the given patterns — "a function of these values", whatever the lookup is spelled like"""
+    def __init__(self, *subs):
+        self.subs = subs
+
+    def __repr__(self):
+        return "f(%s)" % ", ".join(repr(s_) for s_ in self.subs)
+
+
 def _match1(pat, t, extra_strip=()):
+    if isinstance(pat, Mentions):
+        from . import mir as _mir
+        subs = [t] + list(_mir.subterms(t))
+        for sp in pat.subs:
+            if not any(_match1(sp, u, extra_strip) is None for u in subs
+                       if isinstance(sp, (VF, T)) or True):
+                return "expected a value computed from %r, found %s" % (sp, show(t))
+        return None
     if isinstance(pat, VF):
         t = strip(t, extra_strip)
         want = ("as", ("param", pat.i), pat.variant)
